@@ -120,6 +120,13 @@ Example C08_paths_inhabited :
     /\ crosses_set (collect_defs ex_cyclic) ex_cyclic [KT 1; KI 1; KI 0] = false.
 Proof. exact ex_paths_ok. Qed.
 
+(* get_path's loop returns exactly what Python's indexing rules (Spec.lookup_path)
+   give for the path, and PathAccessError otherwise - for every graph and path *)
+Theorem C08_get_path : forall root p,
+  get_path root p = match lookup_path (collect_defs root) root p with Some r => Ok r | None => Raise KeyError end.
+Proof. exact get_path_is_lookup. Qed.
+Print Assumptions C08_get_path.
+
 (* FULL STATEMENT (refuted): every (path, value) reported by research below the
    root is retrievable with get_path.  research({'a': {1, 2}}) reports
    (('a', 0), 1); sets are not subscriptable. *)
